@@ -57,6 +57,27 @@ func runC03(c *eng.Ctx) {
 				bad = "store to the high watermark is not guarded by new > old on every path (" + w.String() + "): the watermark can move backwards"
 			} else if !held {
 				bad = "store to the high watermark without the log's write lock: comparison and store are not atomic"
+			} else {
+				// the comparison itself is made under that same hold of the write lock
+				muKey := eng.Path(a.Base) + ".mu"
+				for _, e := range guard {
+					iff := e.From.Instrs[len(e.From.Instrs)-1]
+					if la.At(iff)[muKey] != 2 {
+						bad = "new > l.hw is evaluated at " + c.Pos(iff) + " without the write lock held, and the store happens later under it: two callers can both pass the test and the one carrying the smaller value can store last — the watermark moves backwards"
+						break
+					}
+					q := &eng.PathQuery{Fn: a.Fn, FromEdges: []eng.Edge{e}, Target: func(x ssa.Instruction) bool { return x == ssa.Instruction(st) }, CutInstr: func(x ssa.Instruction) bool {
+						call, ok := x.(*ssa.Call)
+						if !ok {
+							return false
+						}
+						sc := call.Call.StaticCallee()
+						return sc != nil && (sc.Name() == "Unlock" || sc.Name() == "RUnlock")
+					}}
+					if q.Find() == nil {
+						bad = "every path from the test new > l.hw to the store releases a lock in between: the test and the store are not one critical section"
+					}
+				}
 			}
 			c.Check(bad == "", construct, c.Pos(st), "guarded by new > l.hw with l.mu write-held", bad)
 		}
